@@ -68,6 +68,17 @@ fn check_value_inner(loc: &Locale, case: &Value, st: &mut Stats, mode: Count) {
     if !strictly_inc(&o.id.variants) || !strictly_inc(&o.attrs) || !strictly_inc(&kk) || !strictly_inc(&tk) || !non_dec(&o.private) {
         st.fail("getter-order", case.clone(), size, format!("variants {:?} attributes {:?} keys {kk:?} tkeys {tk:?} tags {:?}", o.id.variants, o.attrs, o.private));
     }
+    // Display must not keep state between calls: after writes into sinks that fail at once,
+    // half-way and one byte short, the renderings are what they were
+    match guard(|| values::poison_display(loc, &s)) {
+        Err(p) => st.fail(format!("failing-sink:{}", panic_sig(&p)), case.clone(), size, "Display panicked while writing into a sink that reports an error"),
+        Ok(Some(why)) => st.fail("failing-sink:partial-output-is-not-a-prefix", case.clone(), size, why),
+        Ok(None) => {}
+    }
+    let (s2, ids2, es2) = (loc.to_string(), loc.id.to_string(), loc.extensions.to_string());
+    if s2 != s || ids2 != ids || es2 != es {
+        st.fail("to_string-differs-after-a-failed-write", case.clone(), size, format!("before: {s:?} / {ids:?} / {es:?}; after writes into failing sinks on the same thread: {s2:?} / {ids2:?} / {es2:?}"));
+    }
     if route == "bytes" {
         if let Some(b) = case_bytes(case) {
             // the value under test was itself parsed from these bytes (possibly right after other,
